@@ -65,7 +65,7 @@ CLAIMS = {
         'batch\'s own mask (or all-True) and merges per metric, evaluation loops start at zero() and end in result(), '
         'MeanStat.result is safe_div, zero()/evaluate_example() agree on the Stat type, and every padded producer reaches a '
         'mask-aware consumer. Associativity/commutativity up to rounding is not decided.',
-   design='DESIGN.md section 4 C05; rules R-STAT, R-MASK M-a/M-b, R-DIV, R-TYPE',
+   design='DESIGN.md section 4 C05; rules R-STAT, R-MASK M-a/M-b, R-MASK.rank, R-DIV, R-TYPE',
    technique='shape/provenance checks over reaching definitions + producer-to-consumer mask-awareness summaries'),
  'C06': dict(
    text='Static analysis (level "other"): traces every padded-batch producer to its consuming step function and requires a '
@@ -110,7 +110,7 @@ CLAIMS = {
         'that rebuild the view from its own fields changing only the intended one, immutable preprocessor chains, client-before-'
         'batch preprocessing, sorted/ordered iteration, empty views constructible, and no write through self/arguments in any '
         'view method. Equality of content across implementations is not decided.',
-   design='DESIGN.md section 4 C08; rules R-SIB, R-SQL, R-KEYERR, R-DERIVE, R-ORDER, R-PURE, R-EMPTY',
+   design='DESIGN.md section 4 C08; rules R-SIB, R-SQL, R-KEYERR, R-DERIVE, R-ORDER, R-PURE, R-EMPTY, R-FILTER.total',
    technique='sibling-implementation cross-checking (normalised comparisons, SQL literal parsing, CFG dominance, alias/mutation analysis)'),
  'C09': dict(
    text='Static analysis (level "other"): decides the structural necessary conditions of crash-safe resumption on every '
@@ -174,7 +174,7 @@ CLAIMS = {
         'installed TensorFlow source, centre-crop and EMNIST writer-id offsets, and that packaged classification/language models '
         'keep the batch axis in train_loss and use no batch normalisation. Tokenizer losslessness and numeric agreement with '
         'TensorFlow are not decided.',
-   design='DESIGN.md section 4 C20; rules R-CONST, R-SIB.tf, R-TASK, R-ROW, R-OFFSET',
+   design='DESIGN.md section 4 C20; rules R-CONST, R-SIB.tf, R-TASK, R-ROW, R-OFFSET, R-AXIS.flip',
    technique='constant folding from source + cross-module constant comparison + reference-source comparison (installed TensorFlow)'),
  'C17': dict(
    text='Static analysis (level "other"): decides the code-shape necessary conditions of the per-algorithm invariants: APFL '
